@@ -5,6 +5,7 @@ mod c01;
 mod c02;
 mod c03;
 mod c04;
+mod c05;
 mod corpus;
 mod codec;
 mod common;
@@ -28,6 +29,7 @@ fn main() {
         "C02" => c02::run(&cli, &rep),
         "C03" => c03::run(&cli, &rep),
         "C04" => c04::run(&cli, &rep),
+        "C05" => c05::run(&cli, &rep),
         other => {
             eprintln!("mc-seq: unknown check {other}");
             std::process::exit(2);
